@@ -198,7 +198,7 @@ func runCase(c *tcase, in inst, other inst, sh shape, caseNo int, operand string
 	opFlavour := caseNo % 3 // vector 2 created by "new2": same type / another sparse element type / dense
 	for i := range c.H {
 		e := &c.H[i]
-		if sh.kind != "matrix" && e.A == "vwalk" {
+		if sh.kind != "matrix" && (e.A == "vwalk" || e.A == "vwrite") {
 			return nil, true
 		}
 		if sh.kind == "matrix" && (e.A == "new2" || e.A == "appendo" || e.O == 2) {
@@ -273,25 +273,35 @@ func runCase(c *tcase, in inst, other inst, sh shape, caseNo int, operand string
 				}
 			case "vwalk":
 				var full [][]int
-				full, err = o.viewWalk(e.I, e.K, e.P[0], e.P[1], e.P[2], e.P[3], how+si)
+				full, err = o.viewWalk(e.W, e.P[0], e.P[1], how+si)
 				if err == nil {
-					// rows <<-1, q, x>> are the elements read through the view: compare with the content in the window
-					cols := c.Cols
-					vc := e.P[1] - e.P[0]
 					res = [][]int{}
+					reads := []int{}
 					for _, row := range full {
-						if row[0] >= 0 {
+						switch row[0] {
+						case -2: // Dims() of the view
+							if row[1] != e.I || row[2] != e.K {
+								pending = &mismatch{what: "view_dims", step: si, exp: []int{e.I, e.K}, got: row[1:]}
+								return
+							}
+						case -1: // elements read through the view
+							reads = append(reads, row[2])
+						default:
 							res = append(res, row)
-							continue
 						}
-						i, j := row[1]/vc, row[1]%vc
-						if want := e.C[e.O-1][(e.I+i)*cols+e.P[0]+j]; want != row[2] {
-							pending = &mismatch{what: "view_read", step: si, exp: vh.M{"i": i, "j": j, "value": want}, got: row[2]}
-							return
-						}
+					}
+					want := e.D
+					if want == nil {
+						want = []int{}
+					}
+					if !eqInts(reads, want) {
+						pending = &mismatch{what: "view_read", step: si, exp: want, got: reads}
+						return
 					}
 					hasRes = true
 				}
+			case "vwrite":
+				err = o.viewWrite(e.W, e.I, e.K, e.X, how+si)
 			case "promote":
 				for j, oj := range itObj {
 					if oj == 1 {
@@ -551,6 +561,9 @@ func replay(args []string) {
 				lruns, lskip, lmis := 0, 0, 0
 				lk := map[string]int{}
 				shapes := shapesFor(c.N0)
+				if c.N0 == 0 { // degenerate matrices: zero rows and/or zero columns
+					shapes = []shape{{"vector", 0, 0}, {"matrix", 0, 0}, {"matrix", 0, 2}, {"matrix", 2, 0}, {"matrix", 0, 1}, {"matrix", 3, 0}}
+				}
 				if c.Cols > 0 && c.N0%c.Cols == 0 { // histories with matrix views: that matrix shape (and the plain vector)
 					shapes = []shape{{"vector", 0, 0}, {"matrix", c.N0 / c.Cols, c.Cols}}
 				}
@@ -657,6 +670,7 @@ type rev struct {
 	R   [][]int `json:"r"`   // observed result (iteration sequences, iterator position)
 	Dim int     `json:"dim"` // observed Dim() after the call
 	C   []int   `json:"c"`   // observed elements after the call
+	D   []int   `json:"d"`   // elements read through a matrix view (vwalk)
 	Bad string  `json:"bad"` // private-state invariant broken / panic text ("" = none)
 }
 
@@ -700,9 +714,9 @@ func record(args []string) {
 				c := newCont(in, sh.kind, n, sh.rows, sh.cols, tr%2 == 1)
 				tname := in.Name + ":" + c.kind()
 				its := make([]iter, NI+1)
-				out.Put(rev{E: "new", T: tname, X: n, Dim: n, C: make([]int, n), P: []int{}, W: []int{}, R: [][]int{}})
+				out.Put(rev{E: "new", T: tname, X: n, Dim: n, C: make([]int, n), P: []int{}, W: []int{}, R: [][]int{}, D: []int{}})
 				for op := 0; op < nops; op++ {
-					e := rev{T: tname, P: []int{}, W: []int{}, R: [][]int{}}
+					e := rev{T: tname, P: []int{}, W: []int{}, R: [][]int{}, D: []int{}}
 					skip := false
 					wd.Begin(vh.M{"trace": tr, "type": tname, "op": op, "seed": seed})
 					msg := vh.Try(func() { c, skip = oneOp(rng, c, its, &e, n) })
@@ -730,6 +744,33 @@ func record(args []string) {
 	}
 }
 
+// randWord draws a view word of 1-3 steps (slices with any offsets, empty ranges now and then, transpositions)
+func randWord(rng *rand.Rand, rows, cols int) (word []int, vr, vc int, hasT bool) {
+	vr, vc = rows, cols
+	steps := 1 + rng.Intn(3)
+	for s := 0; s < steps; s++ {
+		if rng.Intn(4) == 0 {
+			word = append(word, 1, 0, 0, 0, 0)
+			vr, vc = vc, vr
+			hasT = true
+			continue
+		}
+		rg := func(m int) (int, int) {
+			if m == 0 || rng.Intn(8) == 0 {
+				a := rng.Intn(m + 1)
+				return a, a
+			}
+			a := rng.Intn(m)
+			return a, a + 1 + rng.Intn(m-a)
+		}
+		r0, r1 := rg(vr)
+		c0, c1 := rg(vc)
+		word = append(word, 0, r0, r1, c0, c1)
+		vr, vc = r1-r0, c1-c0
+	}
+	return
+}
+
 func randVec(rng *rand.Rand, m, nnz int) []int {
 	w := make([]int, m)
 	for k := 0; k < nnz && m > 0; k++ {
@@ -755,6 +796,9 @@ func oneOp(rng *rand.Rand, c cont, its []iter, e *rev, nmax int) (cont, bool) {
 	d := c.dim()
 	isVec := c.kind() == "vector"
 	x := rng.Intn(100)
+	if !isVec && rng.Intn(6) == 0 {
+		x = 95 // matrices: more views
+	}
 	kill := func() {
 		for j := range its {
 			its[j] = nil
@@ -887,23 +931,33 @@ func oneOp(rng *rand.Rand, c cont, its []iter, e *rev, nmax int) (cont, bool) {
 		its[j].Next()
 		e.R = [][]int{{posOf(its[j])}}
 	case x < 97:
-		if mc, ok := c.(*matCont); ok && rng.Intn(2) == 0 {
-			// iterate a view of the matrix
-			r0 := rng.Intn(mc.rows)
-			r1 := r0 + 1 + rng.Intn(mc.rows-r0)
-			c0 := rng.Intn(mc.cols)
-			c1 := c0 + 1 + rng.Intn(mc.cols-c0)
-			fi, fj := 0, 0
-			if rng.Intn(2) == 0 {
-				fi, fj = rng.Intn(r1-r0), rng.Intn(c1-c0)
+		if mc, ok := c.(*matCont); ok && rng.Intn(3) != 0 {
+			// a (nested, possibly transposed) view of the matrix: iterate it, or write through it
+			word, vr, vc, hasT := randWord(rng, mc.rows, mc.cols)
+			if vr > 0 && vc > 0 && !hasT && rng.Intn(3) == 0 {
+				e.E, e.W, e.I, e.K, e.X = "vwrite", word, rng.Intn(vr), rng.Intn(vc), mc.cols
+				v := 0
+				if rng.Intn(3) != 0 {
+					v = rng.Intn(5) - 2
+				}
+				e.P = []int{v}
+				c.viewWrite(word, e.I, e.K, v, rng.Intn(2))
+				break
 			}
-			e.E, e.I, e.K, e.X, e.P = "vwalk", r0, r1, mc.cols, []int{c0, c1, fi, fj}
-			full, _ := c.viewWalk(r0, r1, c0, c1, fi, fj, rng.Intn(4))
+			fi, fj := -1, 0
+			if vr > 0 && vc > 0 && rng.Intn(2) == 0 {
+				fi, fj = rng.Intn(vr), rng.Intn(vc)
+			}
+			e.E, e.W, e.X, e.P = "vwalk", word, mc.cols, []int{fi, fj}
+			full, _ := c.viewWalk(word, fi, fj, rng.Intn(8))
 			for _, row := range full {
-				if row[0] >= 0 {
+				switch row[0] {
+				case -2:
+					e.I, e.K = row[1], row[2]
+				case -1:
+					e.D = append(e.D, row[2])
+				default:
 					e.R = append(e.R, row)
-				} else {
-					e.W = append(e.W, row[2]) // the window as read through the view, row-major
 				}
 			}
 			break
